@@ -4,6 +4,7 @@ CONSTANTS
   LinkStyle = "fixed"
   MaxTok = 3
   Part = "both"
+  ListStyle = "versioned"
   Chains = TRUE
 INVARIANT Emit
 CHECK_DEADLOCK FALSE
